@@ -272,3 +272,23 @@ package uePolicyContainer
 //@   ensures implies(RejOK(u), len(b) == 5 + len(u.ManageUEPolicyReject.UEPolicySectionManagementResult.Buffer) && v.ManageUEPolicyReject != nil && v.ManageUEPolicyReject.PTI.Octet == u.ManageUEPolicyReject.PTI.Octet && v.ManageUEPolicyReject.UePolicyDeliveryServiceMsgType.Octet == 3)
 //@   ensures implies(RejOK(u), v.ManageUEPolicyReject.UEPolicySectionManagementResult.Iei == u.ManageUEPolicyReject.UEPolicySectionManagementResult.Iei && v.ManageUEPolicyReject.UEPolicySectionManagementResult.Len == u.ManageUEPolicyReject.UEPolicySectionManagementResult.Len && eqmem(v.ManageUEPolicyReject.UEPolicySectionManagementResult.Buffer, u.ManageUEPolicyReject.UEPolicySectionManagementResult.Buffer))
 //@ end
+
+// Lengths are computed from the content on every encoding (whatever the length field held before).
+//@ func (u *UEPolicyPart) MarshalBinary() (r, err)
+//@   requires len(u.UEPolicyPartContents) <= 65534
+//@   ensures err == nil && len(r) == 3 + len(u.UEPolicyPartContents) && int(u.Len) == 1 + len(u.UEPolicyPartContents)
+//@   ensures r[0] == uint8(u.Len >> 8) && r[1] == uint8(u.Len) && r[2] == u.UEPolicyPartType.Octet
+//@   ensures forall(k, 0, len(u.UEPolicyPartContents), r[3+k] == u.UEPolicyPartContents[k])
+//@ end
+
+//@ func (i *Instruction) MarshalBinary() (r, err)
+//@   ensures implies(err == nil, len(r) >= 4 && i.Len == uint16(len(r) - 2) && r[0] == uint8(i.Len >> 8) && r[1] == uint8(i.Len) && r[2] == uint8(i.Upsc >> 8) && r[3] == uint8(i.Upsc))
+//@ end
+
+//@ func (u *UEPolicySectionManagementSubList) MarshalBinary() (r, err)
+//@   ensures implies(err == nil, len(r) >= 5 && u.Len == uint16(len(r) - 2) && r[0] == uint8(u.Len >> 8) && r[1] == uint8(u.Len) && r[2] == u.PlmnDigit1 && r[3] == u.PlmnDigit2 && r[4] == u.PlmnDigit3)
+//@ end
+
+//@ func (u *UEPolicySectionManagementSubResult) MarshalBinary() (r, err)
+//@   ensures implies(err == nil, len(r) >= 5 && u.Len == uint16(len(r) - 2) && r[0] == uint8(u.Len >> 8) && r[1] == uint8(u.Len) && r[2] == u.PlmnDigit1 && r[3] == u.PlmnDigit2 && r[4] == u.PlmnDigit3)
+//@ end
